@@ -66,7 +66,13 @@ class StlPastifier(LtlPastifier, StlAstVisitor):
         out = StlAstVisitor.visit(self, node, *args, **kwargs)
         d = self.ast.phi_name_to_node_dict
         keys = [k for k, v in d.items() if v == node]
-        self.ast.phi_name_to_node_dict.update({key: out for key in keys})
+        target = out
+        if isinstance(node, Variable):
+            # the name of a variable keeps denoting the variable itself (the data
+            # supplied for it), not the once[d,d] that delays it
+            while not isinstance(target, Variable):
+                target = target.children[0]
+        self.ast.phi_name_to_node_dict.update({key: target for key in keys})
         return out
 
     def visitVariable(self, node, *args, **kwargs):
